@@ -36,13 +36,18 @@ CHECKS = {
              "'all numbers below n-1 revoked when n is signed', 'at most two unrevoked signed numbers', 'accepted secret = "
              "secret of the signed point, consistent with derivable earlier secrets', 'one point/content per number'. The "
              "counter discipline (first two clauses) is also PROVED for unbounded numbers on the abstraction CpAbs.tla "
-             "with TLAPS (27 obligations), which Channel.tla is checked by TLC to refine.",
+             "with TLAPS (27 obligations), which Channel.tla is checked by TLC to refine. Deep-index runs start the "
+             "implementation exploration after 2^k-3 honest commitment cycles (ghost history of the prefix supplied by the "
+             "specification) so that the compact secret store is exercised where the index has k trailing zero bits "
+             "(quick k = 4, 8; thorough k = 3..10).",
         technique="TLA+ spec + TLC model checking; implementation state-graph extraction validated edge-by-edge and "
                   "monitored by TLC; simulated behaviours replayed and trace-validated"),
     "C10": dict(
         category="exploration", design="DESIGN.md §4 C10, §9",
         text="On every refused edge of the exhaustively extracted implementation state graphs (channel requests on the "
-             "product of holder and counterparty alphabets, node-level requests, tracker requests) the harness records "
+             "product of holder and counterparty alphabets and through the real protocol handlers over the transactional "
+             "store; node-level requests incl. on-chain check+sign with channel funding; chain-tracker requests with "
+             "compact / streamed / full-block proofs) the harness records "
              "which of enforcement state / node state / tracker / store (exact key-version-value dump) changed; TLC "
              "evaluates the frame condition on all of them. Exploration level: exhaustive over (reachable state, refused "
              "request) pairs within the bounds, which is the quantifier of the property.",
@@ -53,7 +58,10 @@ CHECKS = {
         text="After every edge of the extracted implementation state graphs a second signer is restored from a copy of "
              "the store (Node::restore_nodes) and compared field by field with the running one; TLC charges an edge whose "
              "source state was restart-equal and whose target is not. Restart is also a request of the alphabets, so "
-             "histories continue on restored signers.",
+             "histories continue on restored signers. Components: channel graphs, protocol handlers over the transactional "
+             "store (also: a crash between prepare and commit), node-level requests (incl. funding withdrawals), and the "
+             "channel life-cycle graphs (blocks with funding / closing / sweeping transactions, reorgs, heartbeats) where "
+             "the complete durable view incl. every tracker listener's watches is compared.",
         technique="TLC evaluates restart-equality observations on every edge of implementation state graphs extracted for "
                   "the TLA+ specifications"),
 }
@@ -68,7 +76,10 @@ CHECKS["C20"] = dict(
          "behaviours of Channel.tla (plus hand-picked racing pairs) run concurrently on the real signer with one thread "
          "held before each of its lock acquisitions in turn; ConcChannel.tla (TLC) checks that replies and final state "
          "equal a;b or b;a as executed sequentially by the implementation and as given by Channel!Step; the same for pairs "
-         "of node-level requests (allowlist, invoices, keysends, new/setup/forget channel, heartbeat) judged by ConcNode.tla.",
+         "of node-level requests (allowlist, invoices, keysends, new/setup/forget channel, on-chain check+sign, heartbeat; "
+         "every pair) judged by ConcNode.tla, and for pairs of commitment requests on different channels sharing a payment "
+         "hash judged by ConcPayments.tla. 51 request kinds recorded (commitment, sweeps, mutual close, invoice signing, "
+         "persist_all, blocks with and without a transaction spending a channel's funding output, ...).",
     technique="lock programs recorded from the real code model-checked in TLA+ (all interleavings); model deadlocks "
               "replayed on real threads; concurrent runs under imposed schedules checked for linearizability by TLC",
     note="the recorded lock programs are schedule-independent for the recorded data situations; log level off; the traced "
